@@ -185,6 +185,9 @@ def check(chk):
     _send_all(chk, repo)
     _player_objects_not_shared(chk, repo)
     _bonus_starts_from_zero(chk, repo)
+    # achievement groups: the selection logic lives on the device and serves every player; a rotation that finds nothing to rotate to must not
+    # leave the group's "rotation in progress" mark set (generic BRACKET-0 looks at every analysed function: name it)
+    chk.analysed(repo.func("mpf/devices/achievement_group.py", "AchievementGroup.rotate_right"))
     # a counter's hit window is device state shared by all players (ignore_hits lives on the device): only its own exit delay ends it, so no
     # method of a logic block wipes all delays (a player's disable inside the window would otherwise leave every later player's hits ignored)
     LBC = "mpf/devices/logic_blocks.py"
@@ -749,6 +752,7 @@ def battery():
     from sa.battery import M
     LBF = "mpf/devices/logic_blocks.py"
     return [
+        M("empty rotation leaves the group marked as rotating (F25 reverted)", "mpf/devices/achievement_group.py", "            self._rotation_in_progress = False\n            return\n", "            return\n", "BRACKET-0"),
         M("disable wipes the hit window's exit delay", "mpf/devices/logic_blocks.py", "        self.post_update_event()\n        self.delay.remove(\"timeout\")\n", "        self.post_update_event()\n        self.delay.clear()\n", "PAIR-12"),
         M("player listed only after player_adding has cleared", "mpf/modes/game/code/game.py", "        self.player_list.append(player)\n", "", "NUM-11"),
         M("bonus total zeroed only when a run finishes", "mpf/modes/bonus/code/bonus.py", "        self.bonus_score = 0\n        self.bonus_iterator = iter(self.bonus_entries)", "        self.bonus_iterator = iter(self.bonus_entries)", "BONUS-11"),
